@@ -514,6 +514,9 @@ func Run(c *common.Ctx) error {
 	if err := recreatedAfterDrop(c, c.Rng.Fork()); err != nil {
 		return err
 	}
+	if err := haltedModeSwitch(c, c.Rng.Fork()); err != nil {
+		return err
+	}
 	if err := haltRecoveryFails(c, c.Rng.Fork()); err != nil {
 		return err
 	}
